@@ -68,3 +68,24 @@ package keeper
 //@ callsite GetClientState [this-chain] chainName == msg.ChainName
 //@ ensures [updated-only-if-authorised] err == nil ==> ncalls("UpdateClient") == 1 && callsok("UpdateClient")
 //@ ensures [receipts-kept] receiptsKept(old(xibc(ctx)), xibc(ctx))
+
+// ---- lemmas over the contracts above (ghost code in zz_verif_lemmas.go) --------------------------
+
+// verif:func ghostAnyOperations
+//@ trusted
+//@ modifies world(ctx)
+//@ ensures [receipts-kept] receiptsKept(old(xibc(ctx)), xibc(ctx))
+
+// C01: for every triple at most one receive is accepted, whatever happens in between.
+// verif:func lemmaExactlyOnce
+//@ let ctx = sdk.UnwrapSDKContext(goCtx)
+//@ let p1  = decodedPacket(first.Packet)
+//@ let p2  = decodedPacket(second.Packet)
+//@ modifies world(ctx)
+//@ ensures [exactly-once] p1.SrcChain == p2.SrcChain && p1.DstChain == p2.DstChain && p1.Sequence == p2.Sequence ==> !(err1 == nil && err2 == nil)
+
+// the transition invariant is transitive: operations composed of operations (proposal handlers, message handlers that
+// call several keeper functions) satisfy it as well
+// verif:func lemmaTransitionsCompose
+//@ modifies world(ctx)
+//@ ensures [receipts-kept] receiptsKept(old(xibc(ctx)), xibc(ctx))
